@@ -173,6 +173,11 @@ func (s *State) IsSet(bits graphics.Bits) bool {
 	return s.GState.Set&bits == bits
 }
 
+// maxStateStackDepth bounds the nesting of q operators.  PDF 1.x limits the
+// depth to 28; PDF 2.0 has no limit, but real content stays far below this
+// value, and every level costs a copy of the graphics state.
+const maxStateStackDepth = 4096
+
 // Push saves the current graphics state (for the q operator).
 func (s *State) Push() error {
 	if s.Version > 0 && s.Version < pdf.V2_0 {
@@ -183,6 +188,12 @@ func (s *State) Push() error {
 			return fmt.Errorf("q stack depth %d exceeds PDF 1.x limit of 28",
 				len(s.stack)+1)
 		}
+	}
+	if len(s.stack) >= maxStateStackDepth {
+		// applies in every version and in permissive mode: each level holds
+		// a copy of the graphics state
+		return fmt.Errorf("q stack depth %d exceeds the limit of %d",
+			len(s.stack)+1, maxStateStackDepth)
 	}
 	s.stack = append(s.stack, savedState{
 		Usable: s.Usable,
